@@ -539,8 +539,12 @@ def gen_program(r, nseg, dir0=None, boundary_heavy=False):
         elif k < 0.22:
             ops += ["F", "M %s" % float(r.uniform(0.1, 0.6)).hex(),
                     "M %s" % float(r.uniform(0.1, 0.9)).hex(), "B", "X"]
-        elif k < 0.36:
+        elif k < 0.29:
             ops += ["F", "M %s" % float(r.uniform(0.05, 0.95)).hex()]
+        elif k < 0.36:       # move_internal(pos) to a point of the reported step (clears the cached step)
+            ops += ["F", "P %s" % float(r.uniform(0.05, 0.95)).hex()]
+            if r.random() < 0.5:
+                ops += ["F", "P %s" % float(r.uniform(0.05, 0.95)).hex(), "F", "B", "X"]
         elif k < 0.52:       # set_dir on the boundary before crossing
             ops += ["F", "B", r.choice([newdir, newdir, perturbed, reversed_dir])()]
             if r.random() < 0.3:
@@ -565,7 +569,7 @@ def gen_program(r, nseg, dir0=None, boundary_heavy=False):
             else:
                 ops += ["M 0x1p+0"]
         else:
-            ops += ["F", "M %s" % float(r.uniform(0.05, 0.95)).hex(), "F",
+            ops += ["F", "%s %s" % (r.choice("MP"), float(r.uniform(0.05, 0.95)).hex()), "F",
                     "M %s" % float(r.uniform(0.05, 0.95)).hex(), newdir(), "F"]
     ops += ["T 400"]
     return ops
